@@ -67,7 +67,7 @@ def run(prop, tier, seed, plan, replay_dir=None):
                                    "the driver parses the unified diff text into hunks; unparsable output is recorded as not well-formed and fails"],
                       wall_s=round(time.time() - t0, 1), violations=nv)
             os.makedirs(os.path.join(HERE, "evidence"), exist_ok=True)
-            json.dump(ev, open(os.path.join(HERE, "evidence", prop + ".json"), "w"), indent=1)
+            json.dump(ev, open(engines.evidence_path(prop), "w"), indent=1)
         log("%s %s seed=%d: %d evaluations, %d functions with wrong results, %.1fs" % (prop, tier, seed, n, nv, time.time() - t0))
         return rc
     finally:
